@@ -28,10 +28,11 @@ const (
 	bReplCtx
 	bFailBefore
 	bFailAfter
+	bFirstOfTwo // call next twice and answer with the FIRST result (a hedged / shadow execution): it is read after the second call
 	nBehaviours
 )
 
-var bNames = []string{"pass", "short-circuit", "call-twice", "call-thrice", "replace-message", "replace-context", "fail-before", "fail-after"}
+var bNames = []string{"pass", "short-circuit", "call-twice", "call-thrice", "replace-message", "replace-context", "fail-before", "fail-after", "first-of-two"}
 
 type ctxMark struct{}
 
@@ -40,6 +41,14 @@ func markOf(ctx context.Context) string { s, _ := ctx.Value(ctxMark{}).(string);
 type tracer struct {
 	mu sync.Mutex
 	ev []string
+	n  int // executions of the core so far: every execution answers differently ("r:<id>#<n>")
+}
+
+func (t *tracer) exec() int {
+	t.mu.Lock()
+	defer t.mu.Unlock()
+	t.n++
+	return t.n
 }
 
 func (t *tracer) log(format string, a ...any) {
@@ -78,6 +87,9 @@ func refRun(chain []int, i int, ctx, msg string, tr *[]string, core func(ctx, ms
 	case bFailAfter:
 		next(ctx, msg)
 		r = fmt.Sprintf("E%d", i)
+	case bFirstOfTwo:
+		r = next(ctx, msg)
+		next(ctx, msg)
 	}
 	*tr = append(*tr, fmt.Sprintf("S%d<%s", i, r))
 	return r
@@ -178,6 +190,9 @@ func serverMsgStage(tr *tracer, i, b int) kmipserver.Middleware {
 		case bFailAfter:
 			_, _ = next(ctx, msg)
 			r, err = nil, errors.New(fmt.Sprintf("E%d", i))
+		case bFirstOfTwo:
+			r, err = next(ctx, msg)
+			_, _ = next(ctx, msg)
 		}
 		tr.log("S%d<%s", i, respID(r, err))
 		return r, err
@@ -189,7 +204,7 @@ func runServerMsgChain(chain []int) (trace []string, result string) {
 	exec := kmipserver.NewBatchExecutor()
 	exec.Route(kmip.OperationActivate, kmipserver.HandleFunc(func(ctx context.Context, req *payloads.ActivateRequestPayload) (*payloads.ActivateResponsePayload, error) {
 		tr.log("H(%s,%s)", markOf(ctx), req.UniqueIdentifier)
-		return &payloads.ActivateResponsePayload{UniqueIdentifier: "r:" + req.UniqueIdentifier}, nil
+		return &payloads.ActivateResponsePayload{UniqueIdentifier: fmt.Sprintf("r:%s#%d", req.UniqueIdentifier, tr.exec())}, nil
 	}))
 	for i, b := range chain {
 		exec.Use(serverMsgStage(tr, i, b))
@@ -253,6 +268,9 @@ func serverItemStage(tr *tracer, i, b int) kmipserver.BatchItemMiddleware {
 		case bFailAfter:
 			_, _ = next(ctx, bi)
 			r, err = &kmip.ResponseBatchItem{Operation: bi.Operation}, errors.New(fmt.Sprintf("E%d", i))
+		case bFirstOfTwo:
+			r, err = next(ctx, bi)
+			_, _ = next(ctx, bi)
 		}
 		tr.log("S%d<%s", i, biRespID(r, err))
 		return r, err
@@ -264,7 +282,7 @@ func runServerItemChain(chain []int) (trace []string, result string) {
 	exec := kmipserver.NewBatchExecutor()
 	exec.Route(kmip.OperationActivate, kmipserver.HandleFunc(func(ctx context.Context, req *payloads.ActivateRequestPayload) (*payloads.ActivateResponsePayload, error) {
 		tr.log("H(%s,%s)", markOf(ctx), req.UniqueIdentifier)
-		return &payloads.ActivateResponsePayload{UniqueIdentifier: "r:" + req.UniqueIdentifier}, nil
+		return &payloads.ActivateResponsePayload{UniqueIdentifier: fmt.Sprintf("r:%s#%d", req.UniqueIdentifier, tr.exec())}, nil
 	}))
 	for i, b := range chain {
 		exec.BatchItemUse(serverItemStage(tr, i, b))
@@ -302,6 +320,9 @@ func clientStage(tr *tracer, i, b int) kmipclient.Middleware {
 		case bFailAfter:
 			_, _ = next(ctx, msg)
 			r, err = nil, errors.New(fmt.Sprintf("E%d", i))
+		case bFirstOfTwo:
+			r, err = next(ctx, msg)
+			_, _ = next(ctx, msg)
 		}
 		tr.log("S%d<%s", i, respID(r, err))
 		return r, err
@@ -328,7 +349,7 @@ func runClientChain(chain []int) (trace []string, result string, err error) {
 				}
 				// the transport is the innermost stage: the context is not visible on the wire
 				tr.log("H(-,%s)", reqID(&req))
-				_ = st.Send(mkResp("r:" + reqID(&req)))
+				_ = st.Send(mkResp(fmt.Sprintf("r:%s#%d", reqID(&req), tr.exec())))
 			}
 		}()
 		return a, nil
@@ -349,7 +370,7 @@ func runC19(c *vlib.Check) {
 	if c.Thorough() {
 		maxLen = 5
 	}
-	c.Rule = fmt.Sprintf("explicit-state enumeration of middleware programs: every chain of length 0..%d over stage behaviours {pass, short-circuit, call next twice, call next three times, replace the message, "+
+	c.Rule = fmt.Sprintf("explicit-state enumeration of middleware programs: every chain of length 0..%d over stage behaviours {pass, short-circuit, call next twice, call next three times, call next twice and answer with the first result (every execution of the core answers differently), replace the message, "+
 		"replace the context, fail before next, fail after next} for the client chain, the server message chain and the server batch-item chain, run on the real code; the recorded trace of "+
 		"(stage entry with context marker and message identity, core invocation, stage return with result identity) is compared with a recursive reference interpreter; "+
 		"registration histories: stages handed over in two registration calls from one caller-owned slice with spare capacity, two clients / executors built one after the other from it with different tails, each must run exactly its own stages in order; "+
@@ -374,13 +395,15 @@ func runC19(c *vlib.Check) {
 		vlib.Parallel(len(all), 0, func(i int) {
 			chain := all[i]
 			var want []string
+			execs := 0
 			hideCtx := k.name == "client"
 			core := func(ctx, msg string) string {
 				if hideCtx {
 					ctx = "-"
 				}
 				want = append(want, fmt.Sprintf("H(%s,%s)", ctx, msg))
-				return "r:" + msg
+				execs++
+				return fmt.Sprintf("r:%s#%d", msg, execs)
 			}
 			res := refRun(chain, 0, "k", "m", &want, core)
 			res += "|" + refRun(chain, 0, "k", "n", &want, core)
